@@ -198,8 +198,71 @@ func stakersCommunityArg(repo string) (string, error) {
 	return res, nil
 }
 
+// stakersReturnsBeforeBooking: the guards of every `return` that AllocateTokensToStakers can take
+// BEFORE the statement that books the remainder to the community pool (top-level statements in
+// source order; "unconditional" for a bare return). The unchanged code has exactly one: the
+// error of GetOptedInAVSForOperator. Any further early exit would drop the staker part of the
+// validator's portion without booking it.
+func stakersReturnsBeforeBooking(repo string) ([]string, error) {
+	fset := token.NewFileSet()
+	f, err := parser.ParseFile(fset, repo+"/x/feedistribution/keeper/allocation.go", nil, 0)
+	if err != nil {
+		return nil, err
+	}
+	fd := findFunc(f, "Keeper.AllocateTokensToStakers")
+	if fd == nil {
+		return nil, fmt.Errorf("AllocateTokensToStakers not found")
+	}
+	res := []string{}
+	booked := false
+	for _, st := range fd.Body.List {
+		if as, ok := st.(*ast.AssignStmt); ok && len(as.Lhs) == 1 && exprText(as.Lhs[0]) == "feePool.CommunityPool" {
+			booked = true
+			break
+		}
+		// returns anywhere inside this statement (closures excluded), with the innermost if-guard
+		var walk func(n ast.Node, guard string)
+		walk = func(n ast.Node, guard string) {
+			ast.Inspect(n, func(x ast.Node) bool {
+				switch y := x.(type) {
+				case *ast.FuncLit:
+					return false
+				case *ast.ReturnStmt:
+					res = append(res, guard)
+					return false
+				case *ast.IfStmt:
+					if y != n {
+						g := rwRender(fset, y.Cond)
+						walk(y.Body, g)
+						if y.Else != nil {
+							walk(y.Else, "else of "+g)
+						}
+						return false
+					}
+				}
+				return true
+			})
+		}
+		if ifs, ok := st.(*ast.IfStmt); ok {
+			g := rwRender(fset, ifs.Cond)
+			walk(ifs.Body, g)
+			if ifs.Else != nil {
+				walk(ifs.Else, "else of "+g)
+			}
+		} else {
+			walk(st, "unconditional")
+		}
+	}
+	if !booked {
+		return nil, fmt.Errorf("no top-level community-pool booking in AllocateTokensToStakers")
+	}
+	return res, nil
+}
+
 func init() {
 	factGens = append(factGens, func(repo string, emit func(name, leanDef string, err error)) {
+		rb, rerr := stakersReturnsBeforeBooking(repo)
+		emit("stakersReturnsBeforeBooking", "/-- allocation.go: AllocateTokensToStakers — guards of the returns that precede the community-pool booking -/\ndef stakersReturnsBeforeBooking : List String := "+leanStrList(rb), rerr)
 		for _, sp := range rwShapes {
 			l, err := rwShape(repo, sp.file, sp.fn)
 			emit(sp.name, "/-- "+sp.file+": "+sp.fn+" — significant statements in source order -/\ndef "+sp.name+" : List String := "+leanStrList(l), err)
